@@ -175,6 +175,9 @@ func c13ObjectProgram(s Src) (string, *C13Expect) {
 			terminal = true
 		case 8: // terminal: missing property on a literal receiver (diagnostic quotes the literal)
 			k := drawKeys(4)
+			if Bool(s, "repeatedname") {
+				k[3] = k[0] // the literal names a property twice: whatever is quoted must still be the same every time
+			}
 			ls = append(ls, fmt.Sprintf("%s ({%s: 1, %s: 2, %s: 3, %s: 4}).nothere;", KwPrint, k[0], k[1], k[2], k[3]))
 			terminal = true
 		case 12: // an object with many properties (70 > any small internal bound), printed whole and listed
